@@ -506,3 +506,35 @@ Definition rec_canon (F : fmt) (r : rawrec) : bool :=
   cells_canon (f_kinds F) (r_fields r) && zlist_eqb (r_raw r) (render (f_layout F) (r_fields r)).
 (* write observations erased: what is compared on files that are not canonically spelled *)
 Definition erase (x : obs) : obs := match x with XBytes _ => XBytes [] | _ => x end.
+
+(* ---------------------------------------------------------------- decision rules, named
+   Bridge/C05.v proves (a) that the rules regenerated from /repo on every run (Gen/C05.v, translate/gen_c05.py) are
+   these, and (b) that the functions above follow them.  Codes for "where a column comes from":
+   0 = _set_values, 1 = parsed from the buffer through the item getter, 2 = _computed_values, 3 = not a field. *)
+Definition m_getattr_source (in_set is_field in_cache : bool) : Z :=
+  if in_set then 0 else if is_field then (if in_cache then 2 else 1) else 3.
+Definition m_get_field_parses_buffer : bool := true.
+Definition m_getitem_indexes_buffer : bool := true.
+Definition m_getitem_indexes_overlay : bool := true.
+Definition m_getitem_indexes_cache : bool := true.
+Definition m_getitem_scalar_row : Z := 0.
+Definition m_itemgetter_getitem_resets_start_line : bool := true.   (* line numbers are C15's; no start line in this model *)
+Definition m_replace_into_overlay : bool := true.
+Definition m_replace_new_overrides_old : bool := true.
+Definition m_replace_keeps_cache : bool := false.
+Definition m_data_object_reads_all_fields_in_order : bool := true.
+Definition m_concat_stays_lazy (has_concat : bool) : bool := has_concat.
+Definition m_concat_requires_all_lazy : bool := true.
+Definition m_concat_column_source (in_set in_cache : bool) : Z := if in_set then 0 else if in_cache then 2 else 1.
+Definition m_concat_set_key (some_operand_replaced : bool) : bool := some_operand_replaced.
+Definition m_concat_cache_key (some_operand_replaced every_operand_cached : bool) : bool :=
+  negb some_operand_replaced && every_operand_cached.
+(* get_buffer: 1 = serialise the data object, 2 = raw pass-through, 3 = refuse, 4 = join text columns *)
+Definition m_get_buffer_path (has_text buffer_skips class_skips any_replaced same_class supports_modified : bool) : Z :=
+  if negb has_text || (buffer_skips || class_skips) then 1
+  else if negb any_replaced && same_class then 2
+  else if negb supports_modified then 3 else 4.
+Definition m_write_column_source (in_set : bool) : Z := if in_set then 0 else 1.
+Definition m_write_columns_in_field_order : bool := true.
+Definition m_should_be_lazy (config_lazy arg_none arg_false has_getter has_dataclass is_gtf : bool) : bool :=
+  if (negb config_lazy && arg_none) || arg_false then false else (has_getter && has_dataclass) && negb is_gtf.
